@@ -15,7 +15,8 @@
 From Coq Require Import ZArith NArith String List Bool.
 Import ListNotations.
 From TP Require Import Base.PyVal Fields.FieldAst Fields.SetChain Fields.Doc Struct.Shapes Struct.Instance
-  Struct.Mutate Struct.MutateProofs Gen.Tables Struct.WrapBody Struct.WrapBodyProofs Gen.WrapBodies.
+  Struct.Mutate Struct.MutateProofs Gen.Tables Struct.WrapBody Struct.WrapBodyProofs Gen.WrapBodies
+  Base.PyObj Struct.StructGuardProofs Struct.NoneFields Struct.NoneFieldsProofs Gen.StructNoneFields.
 Local Open Scope string_scope.
 
 (* The statement as given: from a valid state EVERY operation either succeeds leaving a valid instance or
@@ -393,3 +394,68 @@ Print Assumptions C03_src_delitem.
 Print Assumptions C03_src_restore_matters.
 Print Assumptions C03_src_field_set.
 Print Assumptions C03_src_wrapper_guard.
+
+(* (e) The explicit-None markers (`_enable_undefined_value = True`: instance._none_fields) as a second component of
+   the state.  Structure.__setattr__ is translated from the source on every run into the ORDERED list of its effects
+   on (__dict__[key], _none_fields) (Gen/StructNoneFields.v); that list is the documented one -- the marker changes
+   AFTER the hand-over to the descriptor chain -- for every class description, both values of the switch, every
+   ordinary attribute name and every value: *)
+Theorem C03_src_setattr_none_fields : forall c u inst n v,
+    ordinary_name n = true ->
+    Structure__setattr_nf (undef_heap c u inst) (PStr n) v = setattr_nf_decision c u inst n v.
+Proof. exact generated_setattr_nf. Qed.
+
+(* ... with it an assignment that raises leaves the attributes AND the markers as they were (all-or-nothing on both
+   components), for the documented list and hence for the source: *)
+Theorem C03_setattr_none_fields_atomic : forall re_match e c u inst st n v x,
+    snd (setattr_u re_match e c u inst st n v) = Raised x -> fst (setattr_u re_match e c u inst st n v) = st.
+Proof. exact setattr_u_atomic. Qed.
+
+Theorem C03_src_setattr_atomic_on_both_components : forall re_match e c u inst st n v x,
+    ordinary_name n = true ->
+    snd (run_decision re_match e c inst st n (Structure__setattr_nf (undef_heap c u inst) (PStr n) v)) = Raised x ->
+    fst (run_decision re_match e c inst st n (Structure__setattr_nf (undef_heap c u inst) (PStr n) v)) = st.
+Proof. exact generated_setattr_u_atomic. Qed.
+
+(* ... any effect list in which nothing precedes the single restoring hand-over is all-or-nothing: *)
+Theorem C03_atomic_shape_is_atomic : forall re_match e evs c inst n st x,
+    nf_atomic_shape evs = true ->
+    snd (run_nf re_match e c inst n st evs) = Raised x -> fst (run_nf re_match e c inst n st evs) = st.
+Proof. exact atomic_shape_is_atomic. Qed.
+
+(* ... on the attributes the two-component model is the setattr of the theorems above: *)
+Theorem C03_setattr_u_attrs : forall re_match e c u inst st n v,
+    (u_attrs (fst (setattr_u re_match e c u inst st n v)), snd (setattr_u re_match e c u inst st n v))
+    = setattr re_match e (with_undefined c u) inst (u_attrs st) n v.
+Proof. exact setattr_u_attrs. Qed.
+
+(* ... and the other order is NOT atomic: with the marker removed before the hand-over, a rejected assignment to a
+   field holding an explicit None raises and loses the marker (None silently becomes Undefined). *)
+Theorem C03_discard_before_handover_not_atomic : forall re_match e c inst n st v x,
+    str_in n (u_none st) = true ->
+    snd (run_nf re_match e c inst n st [NfHandover v true]) = Raised x ->
+    snd (run_nf re_match e c inst n st [NfDiscard; NfHandover v true]) = Raised x /\
+    fst (run_nf re_match e c inst n st [NfDiscard; NfHandover v true]) <> st.
+Proof. exact discard_before_handover_not_atomic. Qed.
+
+Print Assumptions C03_src_setattr_none_fields.
+Print Assumptions C03_setattr_none_fields_atomic.
+Print Assumptions C03_src_setattr_atomic_on_both_components.
+Print Assumptions C03_atomic_shape_is_atomic.
+Print Assumptions C03_setattr_u_attrs.
+Print Assumptions C03_discard_before_handover_not_atomic.
+
+(* non-vacuity: class W (a : Array[Integer], i, j : Integer, a required) with the undefined value enabled, i holding an
+   explicit None: x.i = 'no' raises and changes nothing; x.i = 3 stores 3 and removes the marker; x.j = None adds one;
+   the source's effect list for x.i = 3 is [hand-over with restore; discard]. *)
+Definition ex_ust : ustate := {| u_attrs := [(s2p "a", PList [PNum (NInt 1)])]; u_none := [s2p "i"] |}.
+Example C03_none_fields_nonvacuous :
+  setattr_u no_re [] (w_class HookNone) true true ex_ust (s2p "i") (PStr (s2p "no")) = (ex_ust, Raised TypeError) /\
+  setattr_u no_re [] (w_class HookNone) true true ex_ust (s2p "i") (PNum (NInt 3))
+    = ({| u_attrs := [(s2p "a", PList [PNum (NInt 1)]); (s2p "i", PNum (NInt 3))]; u_none := [] |}, Done) /\
+  setattr_u no_re [] (w_class HookNone) true true ex_ust (s2p "j") PNone
+    = ({| u_attrs := u_attrs ex_ust; u_none := [s2p "j"; s2p "i"] |}, Done) /\
+  Structure__setattr_nf (undef_heap (w_class HookNone) true true) (PStr (s2p "i")) (PNum (NInt 3))
+    = Ok [NfHandover (PNum (NInt 3)) true; NfDiscard] /\
+  ordinary_name (s2p "i") = true.
+Proof. repeat split; vm_compute; reflexivity. Qed.
